@@ -2,7 +2,10 @@
 
 Proof: coq/Map/{Spec,Model,Proofs}.v + Properties/C11.v: the branch-by-branch model of starlark_map::SmallMap
 (entries + optional hash index) keeps its invariant under every operation and refines an association list, for
-every hash function (collisions allowed), every threshold and every sort cut-off.
+every hash function (collisions allowed), every threshold and every sort cut-off.  coq/Map/{Wrappers,WrapperProofs}.v:
+SmallSet, OrderedMap/Set, SortedMap/Set (layers over the SmallMap proof), UnorderedMap/Set (bag of slots) and Vec2
+(two parallel arrays, index-based insertion sort) refine their list specifications; Eq is order-sensitive for the
+ordered and order-insensitive for the small/unordered containers.
 Tie: the `maps` harness runs operation histories on the real SmallMap<Key,i64> (Key has a caller-chosen 32-bit
 hash, given through Hashed::new_unchecked and, identically, through its Hash impl) and reports after EVERY
 operation the entries, every lookup, the return value and the index snapshot (hook verif_index_snapshot); the Coq
@@ -21,10 +24,16 @@ TRUSTED = ["extraction: ExtrOcamlBasic only (bool/option/unit/prod/list map to O
            "ocaml/map_driver.ml (line parsing/printing, hand-written); OCaml 4.13.1 ocamlopt",
            "hashbrown::HashTable<usize> modelled as a bag of (hash, index) slots: find returns a slot with that hash "
            "satisfying the predicate; insert_unique/remove/iter_mut/retain/clear act slot-wise",
-           "std slice::sort_by (Vec2::sort_by above MAX_INSERTION entries) modelled as a stable sort",
+           "std slice::sort_by (Vec2::sort_by above MAX_INSERTION entries), sort_by_key / sort_unstable of entries_sorted modelled as a stable sort",
+           "hashbrown::HashTable<(K,V)> (UnorderedMap) modelled as a bag of (hash, entry) slots, bucket order = list order; "
+           "coq/Map/Wrappers.v (wrapper models) is a hand-written mirror of the Rust methods, compared with the code only through the "
+           "Python list specification of this module",
            "hook H3 SmallMap::verif_index_snapshot (reads the index slots)"]
 ASSUMPTIONS = ["a key's hash is a function of the key (Hash/Eq coherent, the contract of Hashed::new_unchecked); hashes may collide freely",
                "insert_unique_unchecked is issued only for absent keys (its documented contract)",
+               "SortedMap/SortedSet/entries_sorted statements: the key order (Ord) is a strict total order (asymmetric, total, transitive); "
+               "Vec2::sort_by stability: the comparator is a strict weak order (incomparability is transitive); Eq/Ord/Hash statements: "
+               "the element comparisons decide Leibniz equality",
                "the model/implementation tie is differential testing: exhaustive short histories over 3 keys / 2 hash values, "
                "random long histories crossing the index threshold"]
 
@@ -549,22 +558,54 @@ def replay(ctx, rep):
 
 META = {
     "category": "proof",
-    "level_text": "Full for SmallMap (the mechanism every ordered container is built on), differential for the thin wrappers. Coq theorems "
-                  "(Properties/C11.v, closed under the global context) show for EVERY operation history (insert, guarded unique insert, "
-                  "remove by key/index, pop, clear, retain, sort_keys, reverse, maybe_drop_index, reserve, extend, entry or_insert / "
-                  "and_modify, with_capacity, clone), every hash function (collisions allowed), every threshold and sort cut-off: the "
-                  "invariant (distinct keys, stored hash = hash of key, index = exactly the slots (hash k_i, i), a permutation of 0..n-1, "
-                  "present above the threshold) holds; entries, return values, get, get_index_of, contains_key, get_index equal those of "
-                  "an association list; every stored index is in bounds; sort_keys gives a sorted permutation; the content is independent "
-                  "of the hash function. The model is tied to /repo on every run: NO_INDEX_THRESHOLD, the +1 offset and MAX_INSERTION are "
-                  "re-extracted, and the model (extracted to OCaml) must print the same line as the real SmallMap after every step of "
-                  "exhaustive short and random long histories, including the index snapshot. SmallSet, OrderedMap/Set, SortedMap/Set, "
-                  "UnorderedMap/Set and Vec2 are driven through the same histories and compared with the list specification (not "
-                  "modelled separately in Coq: they delegate to SmallMap, UnorderedMap/Set to hashbrown directly).",
+    "level_text": "Full for SmallMap and, since this round, machine-checked for every wrapper of the map library at model level; the tie "
+                  "of the wrapper models to /repo stays differential. Coq theorems (Properties/C11.v, 60 statements, closed under the "
+                  "global context) show for EVERY operation history, every hash function (collisions allowed), every threshold and sort "
+                  "cut-off: (1) SmallMap: the invariant (distinct keys, stored hash = hash of key, index = exactly the slots (hash k_i, i), "
+                  "a permutation of 0..n-1, present above the threshold); entries, return values, get, get_index_of, contains_key, "
+                  "get_index equal those of an association list; stored indices in bounds; sort_keys sorted permutation; content "
+                  "independent of the hash function. (2) SmallSet (= SmallMap<T,()>; insert, guarded insert_unique, shift_remove, take, "
+                  "shift_remove_index, pop, clear, retain, sort, reverse, reserve, extend, get_or_insert, with_capacity, clone, and "
+                  "OrderedSet::try_insert): C11_small_set_is_map_layer (a SmallSet history IS the history of the SmallMap methods it "
+                  "delegates to), _refines (elements in order = list-of-keys specification), _ret_refines (insert says whether new, "
+                  "take/pop return the element, ...), _lookups_refine (contains, get, get_index_of, get_index, first, last, len), "
+                  "_union_refines (union/difference), _inv_reachable. (3) OrderedMap (insert, remove, clear, entry or_insert/and_modify, "
+                  "sort_keys, extend, get_mut, iter_mut/values_mut, with_capacity, clone): _refines, _ret_refines, get/index_of/get_index, "
+                  "invariant; OrderedSet forwards to SmallSet (C11_ordered_set_refines). Eq/Ord/Hash are order-SENSITIVE: "
+                  "C11_ordered_eq_is_list_eq (eq_ordered = true <-> equal entry sequences, for any two maps with the invariant), "
+                  "C11_ordered_cmp_eq_is_list_eq (lexicographic cmp = Equal <-> equal sequences), C11_ordered_hash_congr; SmallMap/SmallSet "
+                  "Eq is order-INsensitive: C11_small_map_eq_is_perm (<-> Permutation). (4) SortedMap (FromIterator = insert all + "
+                  "sort_keys, then only value writes get_mut/iter_mut/values_mut): C11_sorted_map_inv_reachable (SmallMap invariant and keys "
+                  "STRICTLY increasing after construction and any writes, for a strict total order), _refines, _get_refines, "
+                  "_from_iter_perm; SortedSet::from_iter: C11_sorted_set_from_iter (strictly sorted, = sorted de-duplicated input) and "
+                  "lookups. (5) UnorderedMap (hashbrown table modelled as a bag of slots stored under their hash; insert, remove, retain, "
+                  "entry or_insert/modify, get_mut, values_mut, clear, extend/from_iter, map_values): C11_unordered_map_refines (every slot "
+                  "under its key's hash, keys distinct, content = the association-list specification as a bag, i.e. up to Permutation), "
+                  "_ret_refines, _get_refines; C11_unordered_eq_is_perm (Eq <-> Permutation of entries), get / Hash (commutative sum) / "
+                  "entries_sorted independent of the bucket order, entries_sorted = THE strictly sorted permutation "
+                  "(C11_unordered_entries_sorted); UnorderedSet insert/remove/contains/clear/from_iter/eq/entries_sorted likewise. "
+                  "(6) Vec2 (two parallel arrays + capacity; push, pop, remove, clear, truncate, retain, sort_by, sort_insertion_by, "
+                  "reserve, shrink_to_fit, extend, with_capacity, clone, get/first/last/len, eq): C11_vec2_inv_reachable (halves equally "
+                  "long, len <= cap), C11_vec2_refines (zipped = list specification), _ret_refines, _get_refines; "
+                  "C11_insertion_sort_is_isort (the index-based find_insertion_point + swap_shift loop of sorting/insertion.rs = the "
+                  "stable insertion sort) and C11_vec2_sort_stable_perm (the hybrid sort_by is a sorted, STABLE permutation on both sides "
+                  "of MAX_INSERTION). NOT proved: SortedSet::from(SortedVec) (relies on the input being sorted) and new_unchecked (caller "
+                  "contract), raw-entry insertion under a foreign hash/key, iter_mut_unchecked, serde/pagable, Vec2's pointer arithmetic. "
+                  "Tie to /repo on every run: NO_INDEX_THRESHOLD, the +1 offset and MAX_INSERTION are re-extracted; the SmallMap model "
+                  "(extracted to OCaml) must print the same line as the real SmallMap after every step of exhaustive short and random long "
+                  "histories, including the index snapshot. The WRAPPER models are not extracted: the real SmallSet, OrderedMap/Set, "
+                  "SortedMap/Set, UnorderedMap/Set and Vec2 are driven through the same histories and compared after every step with the "
+                  "Python list specification, which is the twin of the Coq list specifications (s_step, om_step, us_step, vs_step) the "
+                  "wrapper models are proved to refine; so for the wrappers the model/code correspondence is by reading "
+                  "(Map/Wrappers.v cites each Rust method) plus that differential test.",
     "level_note": "Trusted: Coq kernel; extraction (ExtrOcamlBasic only) + ocaml/map_driver.ml; tools/extract.py; harness bin maps + hook H3; "
-                  "hashbrown's table modelled as a bag of (hash, index) slots; std stable sort modelled by insertion sort; Vec2's unsafe "
-                  "pointer arithmetic is modelled as list surgery (memory safety beyond index-in-bounds is not shown). The tie is "
+                  "hashbrown's tables modelled as bags of slots found by (hash, predicate) (HashTable<usize> for the SmallMap index, "
+                  "HashTable<(K,V)> for UnorderedMap; bucket order = list order, all statements permutation-invariant); std stable sort "
+                  "(slice::sort_by / sort_by_key; sort_unstable on distinct keys) modelled by insertion sort; Vec2's unsafe pointer "
+                  "arithmetic is modelled as surgery on two lists (memory safety beyond index-in-bounds / len <= cap is not shown); "
+                  "the wrapper models (Map/Wrappers.v) are hand-written mirrors not extracted or run against the code. The tie is "
                   "differential testing, so a code change outside the generated histories' reach can escape.",
-    "technique": "Coq invariant + refinement proof over all histories; translator-extracted constants; extracted model vs implementation step by step",
+    "technique": "Coq invariant + refinement proof over all histories (wrappers as layers over the SmallMap proof); translator-extracted "
+                 "constants; extracted model vs implementation step by step",
     "design_ref": "DESIGN.md section 4 C11",
 }
